@@ -61,7 +61,9 @@ pub fn try_parse_response<const N: usize>(
         builder = builder.header(h.name, h.value);
     }
 
-    let response = builder.body(()).expect("a valid response");
+    let response = builder
+        .body(())
+        .map_err(|e| Error::HttpParseFail(e.to_string()))?;
 
     Ok(Some((input_used, response)))
 }
@@ -123,7 +125,9 @@ pub fn try_parse_partial_response<const N: usize>(
         builder = builder.header(h.name, h.value);
     }
 
-    let response = builder.body(()).expect("a valid response");
+    let response = builder
+        .body(())
+        .map_err(|e| Error::HttpParseFail(e.to_string()))?;
 
     Ok(Some(response))
 }
@@ -186,7 +190,9 @@ pub fn try_parse_request<const N: usize>(
         builder = builder.header(h.name, h.value);
     }
 
-    let request = builder.body(()).expect("a valid response");
+    let request = builder
+        .body(())
+        .map_err(|e| Error::HttpParseFail(e.to_string()))?;
 
     Ok(Some((input_used, request)))
 }
